@@ -587,13 +587,13 @@ Qed.
 Lemma C12_accept : C12_accept_stmt.
 Proof.
   intros d uord tord H. cbv zeta. cbv beta zeta delta [load] in H.
-  destruct (load_core (d_core d) (d_globals d) []) as [[uo to]|e] eqn:El; [|discriminate].
+  destruct (load_core (d_core d) (global_names d) []) as [[uo to]|e] eqn:El; [|discriminate].
   match type of H with (match ?x with _ => _ end) = _ => destruct x as [u|e] eqn:Erw end; [|discriminate].
-  destruct (pk (kinds_fuel (d_core d)) (k_utils (d_core d)) (k_rule (d_core d))) as [ks|] eqn:Epk; [|discriminate].
+  destruct (pkg (kinds_fuel (d_core d)) (k_utils (d_core d)) (d_globals d) (k_rule (d_core d))) as [ks|] eqn:Epk; [|discriminate].
   injection H as Huo Hto. subst uo to.
   split; [apply C12_core_accept; exact El|]. split; [exists ks; reflexivity|].
   cbv zeta in Erw.
-  destruct (load_rewriters (doc_rewriters d) (d_globals d) (core_defined_vars (d_core d))) as [u'|e] eqn:Elr; [|discriminate].
+  destruct (load_rewriters (doc_rewriters d) (global_names d) (core_defined_vars (d_core d))) as [u'|e] eqn:Elr; [|discriminate].
   apply check_rewriters_ok in Erw. destruct Erw as [Hr1 Hr2].
   split; [|split; [exact Hr1|exact Hr2]].
   intros id k' Hin. destruct (load_rewriters_ok _ _ _ _ Elr id k' Hin) as [Hfx [uo [to Hlc]]].
@@ -696,10 +696,10 @@ Qed.
 Lemma C11_load_total : C11_load_total_stmt.
 Proof.
   intros d H. cbv beta zeta delta [load] in H.
-  destruct (load_core (d_core d) (d_globals d) []) as [[uo to]|e] eqn:El.
-  - destruct (load_rewriters (doc_rewriters d) (d_globals d) (core_defined_vars (d_core d))) as [u'|e] eqn:Elr.
+  destruct (load_core (d_core d) (global_names d) []) as [[uo to]|e] eqn:El.
+  - destruct (load_rewriters (doc_rewriters d) (global_names d) (core_defined_vars (d_core d))) as [u'|e] eqn:Elr.
     + destruct (check_rewriters (d_core d) (doc_rewriters d)) as [u2|e] eqn:Ecr.
-      * destruct (pk (kinds_fuel (d_core d)) (k_utils (d_core d)) (k_rule (d_core d))); discriminate.
+      * destruct (pkg (kinds_fuel (d_core d)) (k_utils (d_core d)) (d_globals d) (k_rule (d_core d))); discriminate.
       * injection H as H. subst e. exact (check_rewriters_nofuel _ _ Ecr).
     + injection H as H. subst e. exact (load_rewriters_nofuel _ _ _ Elr).
   - injection H as H. subst e. apply load_core_err in El.
